@@ -117,10 +117,12 @@ _scratch_n = [0]
 
 def scratch_root():
     global _scratch_root
-    if _scratch_root is None:
-        _scratch_root = os.path.join(SCRATCH_BASE, "mrverif-py.%d" % os.getpid())
-        shutil.rmtree(_scratch_root, ignore_errors=True)
-        os.makedirs(_scratch_root)
+    with _port_lock:
+        if _scratch_root is None:
+            r = os.path.join(SCRATCH_BASE, "mrverif-py.%d" % os.getpid())
+            shutil.rmtree(r, ignore_errors=True)
+            os.makedirs(r)
+            _scratch_root = r
     return _scratch_root
 
 
@@ -137,10 +139,11 @@ class Repo:
     """A scratch repository with a Monorail.json, target directories and helper commands."""
 
     def __init__(self, targets, max_retained_runs=None, sequences=None, git=True, extra_cfg=None, out_dir=None):
+        root = scratch_root()
         with _port_lock:
             _scratch_n[0] += 1
             n = _scratch_n[0]
-        self.dir = os.path.join(scratch_root(), "r%d" % n)
+        self.dir = os.path.join(root, "r%d" % n)
         os.makedirs(self.dir)
         self.trace_dir = os.path.join(scratch_root(), "t%d" % n)
         os.makedirs(self.trace_dir)
